@@ -280,8 +280,10 @@ def _judge_bzr(ctx, S, T, res, pk, spec, flags, fail):
         ctx.count("closure_parent_kind")
         for i, (par, name) in S2.items():
             if par is not None and S2.kinds.get(par) != "directory":
-                reported = "reported as %r" % (S2.kinds.get(par),) if any(c[0] == par for c in changes) else "not reported"
-                fail("closure:parent-not-a-directory", "after applying the filtered changes %r sits below %r which is a %s (%s); %r itself is %s" % (
+                pe = next((c for c in changes if c[0] == par), None)
+                reported = "reported as %r" % (S2.kinds.get(par),) if pe is not None else "not reported"
+                # why the non-directory is in the list at all names the mechanism (inside-filter / source-occupant-of-new-path / parent-of-reported / other)
+                fail("closure:parent-not-a-directory:%s" % (_role(pe, set(changes), spec) if pe is not None else "unreported"), "after applying the filtered changes %r sits below %r which is a %s (%s); %r itself is %s" % (
                     name, (S.get(par) or T.get(par) or {}).get("path"), S2.kinds.get(par), reported, name,
                     "reported" if any(c[0] == i for c in changes) else "not reported"), {"id": _j(i)})
                 return
